@@ -16,7 +16,7 @@ VARIABLES a, stage
 vars == <<a, stage>>
 
 Mk(r, s, c) == [roots |-> r, secs |-> s, ver |-> c.ver, dpad |-> c.dpad, ipad |-> c.ipad, idx |-> c.idx,
-                full |-> c.full, npad |-> c.npad]
+                full |-> c.full, npad |-> c.npad, hx |-> IF "hx" \in DOMAIN c THEN c.hx ELSE 0]
 
 (* Two stages so that TLC's workers share the enumeration: the initial states fix roots and
    container, the single step picks the section list. *)
@@ -30,14 +30,14 @@ Spec == Init /\ [][Next]_vars
 Layout(x) == [fileLen  |-> IF x.ver = 1 THEN PayLen(x)
                            ELSE IF x.idx = "none" THEN DataBase(x) + PayLen(x) ELSE -1,  \* with an index: up to the harness encoder
               dataOff  |-> DataBase(x), dataSize |-> PayLen(x), idxOff |-> IdxOff(x),
-              headerLen |-> HeaderLen(x.roots), sectionsEnd |-> SectionsLen(x)]
+              headerLen |-> HLen(x), sectionsEnd |-> SectionsLen(x)]
 
 IdxAnswers(x) ==
   [q \in Probes |->
-     [mh_noid     |-> IndexOffsets(x.roots, x.secs, FALSE, TRUE, q),
-      mh_id       |-> IndexOffsets(x.roots, x.secs, TRUE, TRUE, q),
-      dig_noid    |-> IndexOffsets(x.roots, x.secs, FALSE, FALSE, q),
-      dig_id      |-> IndexOffsets(x.roots, x.secs, TRUE, FALSE, q)]]
+     [mh_noid     |-> IndexOffsetsA(x, FALSE, TRUE, q),
+      mh_id       |-> IndexOffsetsA(x, TRUE, TRUE, q),
+      dig_noid    |-> IndexOffsetsA(x, FALSE, FALSE, q),
+      dig_id      |-> IndexOffsetsA(x, TRUE, FALSE, q)]]
 
 RoOpts == { [whole |-> w, ident |-> i] : w \in BOOLEAN, i \in BOOLEAN }
 RoName(o) == (IF o.whole THEN "w1" ELSE "w0") \o (IF o.ident THEN "i1" ELSE "i0")
@@ -51,11 +51,11 @@ RoAnswers(x) ==
 (* consistency of the formulations *)
 ScanMatchesIndex ==
   \A i \in 1..Len(a.secs) :
-     Scan(a)[i].off \in IndexOffsets(a.roots, a.secs, TRUE, TRUE, a.secs[i])
+     Scan(a)[i].off \in IndexOffsetsA(a, TRUE, TRUE, a.secs[i])
 OffsetsInsidePayload ==
-  \A i \in 1..Len(a.secs) : Scan(a)[i].off >= HeaderLen(a.roots) /\ Scan(a)[i].doff + Scan(a)[i].size <= SectionsLen(a)
+  \A i \in 1..Len(a.secs) : Scan(a)[i].off >= HLen(a) /\ Scan(a)[i].doff + Scan(a)[i].size <= SectionsLen(a)
 MhRefinesDigest ==
-  \A q \in Probes : IndexOffsets(a.roots, a.secs, TRUE, TRUE, q) \subseteq IndexOffsets(a.roots, a.secs, TRUE, FALSE, q)
+  \A q \in Probes : IndexOffsetsA(a, TRUE, TRUE, q) \subseteq IndexOffsetsA(a, TRUE, FALSE, q)
 StatsCount == Stats(a).count = Len(Scan(a))
 
 Base == [rec |-> "archive", a |-> a, layout |-> Layout(a), scan |-> Scan(a)]
